@@ -752,7 +752,7 @@ def print_statistics(entries, options, outfile):
               help="Numberify the output, removing the currencies.")
 @click.option('--format', '-f', type=click.Choice(FORMATS.keys()), default=None,
               help="Output format.  [default: text]")
-@click.option('--output', '-o', type=click.File('w'), default='-',
+@click.option('--output', '-o', type=click.File('w', lazy=False), default='-',
               help="Output filename.")
 @click.option('--no-errors', '-q', is_flag=True,
               help="Do not report errors.")
